@@ -25,7 +25,7 @@ PLAN = {
     "thorough": {"shards": 16, "shard_timeout": 3600, "case_timeout": 40, "grammars": 5000, "max_case_timeouts": 80},
 }
 THRESHOLDS = {
-    "quick": {"programs_depth_checked": 3000, "frontier_programs": 500, "infeasible_probes": 40, "after_variation": 300, "via:ge": 100, "via:sge": 100, "via:dsge": 100, "via:direct": 300, "via:fullinit": 50, "create_node_entries_seen": 1000},
+    "quick": {"programs_depth_checked": 3000, "frontier_programs": 500, "infeasible_probes": 40, "after_variation": 300, "via:ge": 100, "via:sge": 100, "via:dsge": 100, "via:direct": 300, "via:fullinit": 50, "create_node_entries_seen": 1000, "sibling_grammars_run": 150},
     "thorough": {"programs_depth_checked": 60000, "frontier_programs": 10000, "infeasible_probes": 500, "after_variation": 6000},
 }
 
@@ -42,13 +42,62 @@ def gen_cases(tier, seed):
         for via, dec in VIAS:
             for off in (0, rng.choice([1, 2, 3, 4])):
                 yield {"desc": d, "via": via, "decider": dec, "offset": off, "seed": rng.randrange(10**6), "n": 12 if off == 0 else 6}
+    yield from sibling_cases(rng, descs[: max(8, len(descs) // 3)])
+
+
+def sibling_cases(rng, descs):
+    """The same classes used in two grammars inside one process (a language and a sub-language, or the two
+    depthing modes): anything a decider remembers about one grammar must not leak into the other."""
+    for desc in descs:
+        for via, dec in (("direct", "maxdepth"), ("direct", "full"), ("direct", "pigrow"), ("ge", "maxdepth"), ("sge", "pigrow")):
+            yield {"kind": "siblings", "desc": dict(desc), "via": via, "decider": dec, "variant": rng.choice(["drop-shallowest", "drop-shallowest", "other-depthing"]), "offset": rng.choice([0, 0, 1]), "seed": rng.randrange(10**6), "n": 6}
 
 
 def _site(e):
     return f"{type(e).__name__}@{core.exc_site(e)}"
 
 
+def run_siblings(case, rec):
+    """Grammar A, then grammar B over the SAME class objects, then A again - each checked like any other case."""
+    from geneticengine.grammar.grammar import extract_grammar
+
+    built = grammars.materialise(case["desc"])
+    try:
+        exp = bool(case["desc"].get("expansion"))
+        variants = [(built.classes, exp)]
+        if case["variant"] == "other-depthing":
+            variants.append((built.classes, not exp))
+        else:
+            # drop one field-less production per abstract type that has another production: the sub-language is deeper
+            drop = set()
+            for a in case["desc"]["abstracts"]:
+                prods = [p for p in case["desc"]["prods"] if p.get("parent") == a["name"]]
+                leaf = [p for p in prods if not p["fields"]]
+                if len(prods) >= 2 and leaf:
+                    drop.add(leaf[0]["name"])
+            variants.append(([c for c in built.classes if c.__name__ not in drop], exp))
+        variants.append(variants[0])
+        for k, (classes, e) in enumerate(variants):
+            try:
+                g = extract_grammar(classes, built.start, expansion_depthing=e)
+            except BaseException:  # noqa
+                rec.count("extract_failed")
+                continue
+            mn = g.get_min_tree_depth()
+            if mn >= 1000000:
+                rec.count("unproductive_grammar")
+                continue
+            rec.count("sibling_grammars_run")
+            model = refmodel.Model(classes, built.start, expansion=e)
+            sub = dict(case, desc=dict(case["desc"], name=f"{case['desc']['name']}#{'ABA'[k]}:{case['variant']}", expansion=e))
+            _run(sub, rec, built, g, model, mn)
+    finally:
+        built.dispose()
+
+
 def run_case(case, rec):
+    if case.get("kind") == "siblings":
+        return run_siblings(case, rec)
     built = grammars.materialise(case["desc"])
     try:
         try:
